@@ -99,10 +99,10 @@ def check(run):
     run.lean_props(common.modules_for("C02"))
     rng = run.rng
     rotors = corr.rotor_strata(rng, 4 if quick else 16)
-    preps = kern.prep_rotors(run, rotors)
+    preps = run.attempt("corr:euler", kern.prep_rotors, run, rotors, default={})
     cfg = [(0, 0, 0), (2, 0, 0), (4, 2, 0), (6, 3, 2), (7, 7, 0), (9, 4, 3)] if quick else \
         [(0, 0, 0), (1, 1, 0), (2, 0, 0), (4, 2, 0), (6, 3, 2), (7, 7, 0), (9, 4, 3), (12, 6, 0), (16, 5, 5), (24, 3, 1)]
-    kern.corr_Y(run, cfg, rotors if not quick else rotors[:18] + rotors[-4:], preps, poison=float("nan"))
+    run.attempt("corr:corr_Y", kern.corr_Y, run, cfg, rotors if not quick else rotors[:18] + rotors[-4:], preps, poison=float("nan"))
     pole_focus = [r for r in rotors if ("pole" in r[0] or "identity" in r[0] or "pi-about" in r[0])]
     gen = [r for r in rotors if r[0] in ("generic", "rational", "beta-pi/2")]
     gap_Y(run, [(8, 8, list(range(-8, 9)))], rotors, 3)
